@@ -36,8 +36,10 @@ def header_order(chk, prog, rid, cfg=None):
         if not b:
             chk.floor(fn, 0, 1)
             continue
-        muts = [t["callee"] for _, t in b.calls() if core.call_matches(t, r"^std::vec::Vec::<T, A>::(push|insert|sort|dedup|retain|swap|reverse|truncate)")]
-        chk.ob(rid, fn, "storage appended in arrival order", muts == ["std::vec::Vec::<T, A>::push"],
+        muts = [t["callee"] for _, t in b.calls() if core.call_matches(t, r"^std::vec::Vec::<T, A>::(push|insert|sort|dedup|retain|swap|reverse|truncate)|^humphrey::http::headers::Headers::push$")]
+        # (add may go through Headers::push, which is checked in its own right)
+        chk.ob(rid, fn, "storage appended in arrival order", muts in (["std::vec::Vec::<T, A>::push"], ["humphrey::http::headers::Headers::push"]) and
+               not (fn.endswith("::push") and muts != ["std::vec::Vec::<T, A>::push"]),
                f"Headers storage is mutated by {muts} (expected a single push)", cfg=cfg)
 
 
